@@ -64,6 +64,7 @@ def main():
     ap.add_argument("--digests")
     ap.add_argument("--no-evidence", action="store_true")
     ap.add_argument("--no-selfcheck", action="store_true")
+    ap.add_argument("--dump-digests")
     a = ap.parse_args()
 
     import skfem
@@ -82,7 +83,8 @@ def main():
     return batch.run_check(eng, a.prop, a.tier, a.seed, runs=a.runs,
                            budget_s=a.budget, workers=a.workers,
                            evidence=not a.no_evidence,
-                           selfcheck=not a.no_selfcheck)
+                           selfcheck=not a.no_selfcheck,
+                           dump_digests=a.dump_digests)
 
 
 if __name__ == "__main__":
